@@ -276,7 +276,22 @@ fn emit_simple(a: &mut Asm, rng: &mut Rng, o: &ProgOpts) {
                 a.b.push(0x90);
                 a.shape.push('.');
             } else {
-                match rng.below(7) {
+                match rng.below(13) {
+                    7 => a.b.extend_from_slice(&[0xf6, 0xe0 | rng.below(4) as u8]), // mul al/cl/dl/bl
+                    8 => a.b.extend_from_slice(&[0xf6, 0xe8 | rng.below(4) as u8]), // imul r8
+                    9 => a.b.extend_from_slice(&[0xb0, rng.next() as u8]),           // mov al, imm8
+                    10 => a.b.extend_from_slice(&[0xb4, rng.next() as u8]),          // mov ah, imm8
+                    11 => a.b.extend_from_slice(&[0x66, 0xf7, 0xe0 | rng.below(3) as u8]), // mul ax/cx/dx
+                    12 => {
+                        // cpuid (EBX is the data pointer: preserved around it when the program may use the stack)
+                        if o.reserved.contains(&1) {
+                            a.b.push(0x90);
+                        } else if o.stack_ops {
+                            a.b.extend_from_slice(&[0x53, 0x0f, 0xa2, 0x5b]);
+                        } else {
+                            a.b.extend_from_slice(&[0x0f, 0xa2]);
+                        }
+                    }
                     0 => a.b.push(0x99),                          // cdq
                     1 => a.b.extend_from_slice(&[0x48, 0x99]),    // cqo
                     2 => a.b.extend_from_slice(&[0x48, 0x98]),    // cdqe
